@@ -216,8 +216,8 @@ IDX_CONFIGS = {
 
 def idx_check(prop_id, tier, seed, cfg_names, owns=None, sample=None, nprobes=None):
     t0 = time.time()
-    sample = sample or {"quick": 1200, "thorough": 20000}
-    nprobes = nprobes or {"quick": 16, "thorough": 30}
+    sample = sample or {"quick": 1200, "thorough": 6000}
+    nprobes = nprobes or {"quick": 16, "thorough": 24}
     sample, nprobes = sample[tier], nprobes[tier]
     scen, stats = idx_scenarios(prop_id, tier, seed, sample, nprobes)
     parts = [{"name": "idx", "scenarios": scen, "configs": [IDX_CONFIGS[c] for c in cfg_names]}]
@@ -645,3 +645,19 @@ def check_c25(prop_id, tier, seed):
     if hits == 0:
         raise vc.ToolError("no cached query was answered from the cache: the check would be vacuous")
     return ec.finish(prop_id, tier, seed, t0, verdict, events, stats, configs=cfgs, extra_cov={"answers_served_from_cache": hits})
+
+
+# ---------------------------------------------------------------- C30: Python DB-API parameter binding (MC_Bind)
+PYBIND = os.path.join(vc.HARNESS, "py", "vq_pybind")
+
+
+@prop("C30")
+def check_c30(prop_id, tier, seed):
+    t0 = time.time()
+    vc.build_python_extension()
+    scen, stats = vc.gen_scenarios(prop_id, "MC_Bind", "MC_Bind.cfg", ec.ENGINE_DEPS, consts={"MaxCalls": {"quick": 3, "thorough": 4}[tier]}, workers=1)
+    stats["exhaustive"] = True
+    cfgs = [{"name": "default", "args": []}]
+    wd = os.path.join(vc.RUN, "work_%s" % prop_id)
+    verdict, events, _ = ec.run_parts(prop_id, [{"name": "bind", "scenarios": scen, "configs": cfgs}], wd, harness_bin=PYBIND)
+    return ec.finish(prop_id, tier, seed, t0, verdict, events, stats, configs=cfgs, harness_bin=PYBIND)
